@@ -279,6 +279,13 @@ def d4(cx: Cx, ob: Ob) -> None:
 
 
 
+@obligation("C09-X16", "bridging records (shared with C05-D3): add_record - through which chain folds every record with merge=True - raises ValueError for a record that matches several existing records whatever the merge flag, merges a single match only with merge set, appends only without a match, and rejects before it mutates", floor=2)
+def x16(cx: Cx, ob: Ob) -> None:
+    from .c05 import d3 as add_record_guards
+
+    add_record_guards(cx, ob)
+
+
 @obligation("C09-X1", "OWN (shared with C10): no function that takes a converter stores into, mutates or captures the Record objects of its input - a converter whose records are changed behind its back no longer matches its own lookup tables", floor=6)
 def x1(cx: Cx, ob: Ob) -> None:
     from .c10 import check_no_aliasing
